@@ -140,6 +140,21 @@ def step_installs(index: RepoIndex, rep, rule: str) -> None:
                   f'box compares equal to the closed one and would never open',
                   'step installs the new state')
     sw = step_wiring(index)
+    # the action that is checked, applied and rewarded is the one that was given: neither step
+    # re-interprets it (`action = Action(action)` decodes an integer by enum value, while the
+    # adapters decode by position in the environment's action space)
+    for fn_, ap_ in ((m, m.node.args.args[1].arg if len(m.node.args.args) > 1 else ''),
+                     (sw['func'], sw['action'])):
+        wv = walk_function(fn_.node)
+        reb = [d for d in wv.defs.get(ap_, []) if d[0] in ('value', 'unpack', 'aug')]
+        rep.check(not reb, rule, fn_.relpath, fn_.short, fn_.node.lineno,
+                  '; '.join(f'{ap_} = {src(d[1])[:60]}' if d[0] == 'value' else ap_
+                            for d in reb) or fn_.short,
+                  f'{fn_.short} rebinds its action parameter '
+                  f'(`{src(reb[0][1])[:60] if reb and reb[0][0] == "value" else ap_}`): the action '
+                  f'that reaches the dynamics is not the one the caller chose, so a door can '
+                  f'open under an action that is not ACTUATE in that environment',
+                  f'{fn_.short} action as given')
     w2, C = sw['walk'], sw['copy']
     rets = [e for e in w2.events if e.kind == 'return' and e.value is not None]
     first = [src(w2.expand(r.value.elts[0], stop=[C] if C else []))
